@@ -24,7 +24,7 @@ def strop_part(chk, model, hscan):
         rules, atoms = [], []
         exts = [word(0, 8).replace(b"\0", b"a"), word(1, 5)]
         for k in range(6):
-            op = r.choice(SOPS)
+            op = r.choice(SOPS + ["icontains", "contains", "iendswith", "istartswith"])
             needle = word(0, 4)
             c = r.below(6)
             if c == 0:
@@ -39,6 +39,11 @@ def strop_part(chk, model, hscan):
                 hay = needle
             else:
                 hay = word(0, 9)
+            if needle and r.chance(1, 3):
+                # the needle's first character repeated 1..3 times right before it: a partial match that ends inside the real occurrence
+                hay = word(0, 2) + needle[:1] * r.range(1, 3) + needle + word(0, 2)
+            if needle and r.chance(1, 6):
+                hay = word(0, 2) + needle[:2] + needle + word(0, 1)
             a, b = hay, needle
             ea = eb = None
             if r.chance(1, 3):
